@@ -190,8 +190,46 @@ func pbCode(w *core.World, name string) (int64, bool) {
 }
 
 // frameCode reads the Code field of a &pb.SyncResponse{...} literal.
+// frameAlloc: the frame literal behind v, and, when a constructor helper of the package builds it
+// (`return &pb.SyncResponse{…}` as its only return), the helper's parameters mapped to the call's arguments.
+func frameAlloc(v ssa.Value) (*ssa.Alloc, map[ssa.Value]ssa.Value) {
+	v = core.Unwrap(v)
+	if a, ok := v.(*ssa.Alloc); ok {
+		return a, nil
+	}
+	c, ok := v.(*ssa.Call)
+	if !ok {
+		return nil, nil
+	}
+	g := c.Call.StaticCallee()
+	if g == nil || len(g.Blocks) == 0 || len(g.Params) != len(c.Call.Args) {
+		return nil, nil
+	}
+	var a *ssa.Alloc
+	for _, in := range core.OwnInstrs(g) {
+		ret, isRet := in.(*ssa.Return)
+		if !isRet {
+			continue
+		}
+		ra, isA := core.Unwrap(ret.Results[0]).(*ssa.Alloc)
+		if len(ret.Results) != 1 || !isA || (a != nil && a != ra) {
+			return nil, nil
+		}
+		a = ra
+	}
+	if a == nil {
+		return nil, nil
+	}
+	sub := map[ssa.Value]ssa.Value{}
+	for i, p := range g.Params {
+		sub[p] = c.Call.Args[i]
+	}
+	return a, sub
+}
+
 func frameCode(v ssa.Value) (int64, bool) {
-	a, ok := core.Unwrap(v).(*ssa.Alloc)
+	a, _ := frameAlloc(v)
+	ok := a != nil
 	if !ok {
 		return 0, false
 	}
@@ -210,10 +248,12 @@ func frameCode(v ssa.Value) (int64, bool) {
 }
 
 func frameField(v ssa.Value, name string) ssa.Value {
-	a, ok := core.Unwrap(v).(*ssa.Alloc)
+	a, sub := frameAlloc(v)
+	ok := a != nil
 	if !ok {
 		return nil
 	}
+	_ = sub
 	for _, ref := range *a.Referrers() {
 		fa, ok := ref.(*ssa.FieldAddr)
 		if !ok || core.FieldName(fa) != name {
@@ -221,6 +261,10 @@ func frameField(v ssa.Value, name string) ssa.Value {
 		}
 		for _, rr := range *fa.Referrers() {
 			if st, ok := rr.(*ssa.Store); ok {
+				// a field the helper fills with one of its parameters is what the caller handed in
+				if arg, isPar := sub[core.Unwrap(st.Val)]; isPar {
+					return arg
+				}
 				return st.Val
 			}
 		}
@@ -324,6 +368,13 @@ func ruleSendData(w *core.World, r *core.Report, sd *ssa.Function) {
 	}
 	// R16.4
 	r.Rule("R16.4", "", 2)
+	// sendData, the helpers of the package it is split into, and their closures
+	var scope []*ssa.Function
+	for _, g := range reachableFuncs(sd) {
+		if g == sd || (g.Parent() == nil && core.Transparent != nil && core.Transparent(g)) {
+			scope = append(scope, core.DeepFuncs(g)...)
+		}
+	}
 	cont, _ := pbCode(w, "SyncResponse_CONTINUE")
 	frames := 0
 	okAll := true
@@ -347,8 +398,8 @@ func ruleSendData(w *core.World, r *core.Report, sd *ssa.Function) {
 	}
 	// the byte count of a frame: the count a Read returned, or the length of a slice that every
 	// caller of the frame-building closure cuts to such a count (buf[:n])
-	var countKey func(v ssa.Value) (string, bool)
-	countKey = func(v ssa.Value) (string, bool) {
+	var countKey func(v ssa.Value, sub map[ssa.Value]ssa.Value) (string, bool)
+	countKey = func(v ssa.Value, sub map[ssa.Value]ssa.Value) (string, bool) {
 		v = core.Unwrap(v)
 		if isResultOf("*Read", 0)(v) {
 			return fmt.Sprintf("read@%p", v), true
@@ -358,6 +409,16 @@ func ruleSendData(w *core.World, r *core.Report, sd *ssa.Function) {
 			return "", false
 		}
 		par, ok := core.Unwrap(c.Call.Args[0]).(*ssa.Parameter)
+		if ok {
+			// the length of what this very call of a frame constructor was handed: buf[:n]
+			if arg, isSub := sub[par]; isSub {
+				sl, isSl := core.Unwrap(arg).(*ssa.Slice)
+				if !isSl || sl.Low != nil || sl.High == nil || !isResultOf("*Read", 0)(core.Unwrap(sl.High)) {
+					return "", false
+				}
+				return fmt.Sprintf("read@%p", core.Unwrap(sl.High)), true
+			}
+		}
 		if !ok || par.Parent().Parent() == nil {
 			return "", false
 		}
@@ -369,7 +430,7 @@ func ruleSendData(w *core.World, r *core.Report, sd *ssa.Function) {
 			}
 		}
 		calls := 0
-		for _, h := range core.DeepFuncs(sd) {
+		for _, h := range scope {
 			for _, cs := range core.Sites(h, false) {
 				if cs.Callee != g || cs.Instr.Parent() != h {
 					continue
@@ -392,7 +453,7 @@ func ruleSendData(w *core.World, r *core.Report, sd *ssa.Function) {
 	}
 	var base runOff
 	haveBase := false
-	for _, g := range core.DeepFuncs(sd) {
+	for _, g := range scope {
 		for _, s := range core.Sites(g, false) {
 			if s.Instr.Parent() != g || s.Method != "Send" || !s.Common().IsInvoke() {
 				continue
@@ -408,8 +469,9 @@ func ruleSendData(w *core.World, r *core.Report, sd *ssa.Function) {
 			if b, isB := core.Unwrap(off).(*ssa.BinOp); isB && b.Op == token.ADD && size != nil {
 				if ro, okB := baseOf(b.X); okB && (!haveBase || ro == base) {
 					base, haveBase = ro, true
-					ka, ok1 := countKey(b.Y)
-					kb, ok2 := countKey(size)
+					_, sub := frameAlloc(s.Args()[0])
+					ka, ok1 := countKey(b.Y, nil)
+					kb, ok2 := countKey(size, sub)
 					good = ok1 && ok2 && ka == kb
 				}
 			}
@@ -423,7 +485,7 @@ func ruleSendData(w *core.World, r *core.Report, sd *ssa.Function) {
 	sends := frames
 	if haveBase && base.cell != nil {
 		sends = 0
-		for _, g := range core.DeepFuncs(sd) {
+		for _, g := range scope {
 			for _, s := range core.Sites(g, false) {
 				if s.Instr.Parent() == g && s.Callee != nil && s.Callee.Parent() != nil && len(core.SitesNamed(s.Callee, false, "*.Send")) > 0 {
 					sends++
